@@ -428,6 +428,16 @@ def run_case(ctx, index):
                                  'the non-zero values give %r / %r' %
                                  (ax, mn_.tolist(), mx_.tolist(), wmn, wmx))
 
+                def q_minmax_whole():
+                    if not all(np.any(v != 0) for v in D3.T):
+                        return          # min/max walk the samples
+                    nzv = D3[D3 != 0]
+                    got = (float(t3.min('whole')), float(t3.max('whole')))
+                    if got != (float(nzv.min()), float(nzv.max())):
+                        fail('minmax-whole-stored-zero', 'min/max over the '
+                             'whole table %r, the non-zero values give %r' %
+                             (got, (float(nzv.min()), float(nzv.max()))))
+
                 def q_listed():
                     got = sorted((str(a), str(b)) for a, b in t3.nonzero())
                     want_ = sorted((spec.obs_ids[i], spec.samp_ids[j])
@@ -436,7 +446,8 @@ def run_case(ctx, index):
                         fail('nonzero-stored-zero', 'nonzero() lists %r, the '
                              'non-zero cells are %r' % (got, want_))
                 # whichever question comes first sees the stored zero
-                qs = [q_counts, q_stats, q_nonzero_counts, q_minmax, q_listed]
+                qs = [q_counts, q_stats, q_nonzero_counts, q_minmax, q_listed,
+                      q_minmax_whole]
                 r.shuffle(qs)
                 for q in qs:
                     q()
